@@ -472,7 +472,7 @@ theorem c13_value_partial (const : Bool) (s₀ : List Char) (q : Nat) (t : List 
       obtain ⟨s', pr, e, h1, h2, -, h3, h4⟩ := hg'.ok hp
       simp only []
       refine ⟨s', pr, by rw [← e]; exact hr f hf, h1, h2, h3, fun hnf bf hbf => ?_⟩
-      exact h4 hnf bf (by rw [h3]; exact hbf)
+      exact (h4 bf (by rw [h3]; exact hbf)).trans (expV_fin hnf)
   cases const with
   | false => exact key famV (Or.inl rfl)
   | true => exact key famC (Or.inr rfl)
@@ -531,7 +531,7 @@ theorem c13_arguments_partial (const : Bool) (s₀ : List Char) (q : Nat) (t : L
       rw [hp] at hg'
       obtain ⟨s', pr, e, h1, h2, -, h3, h4⟩ := hg'
       simp only []
-      exact ⟨s', pr, by rw [← e]; exact hr f hf, h1, h2, h3, h4⟩
+      exact ⟨s', pr, by rw [← e]; exact hr f hf, h1, h2, h3, fun hnf => h4.trans (expFs_fin hnf)⟩
   rw [specArguments_eq]
   cases const with
   | false => exact key famV (Or.inl rfl)
